@@ -602,9 +602,18 @@ class Check(PropCheck):
                 ths = [threading.Thread(target=work, args=(i, evs), daemon=True) for i, evs in enumerate(d['threads'])]
                 for t in ths:
                     t.start()
-                deadline = time.time() + 8
-                for t in ths:
-                    t.join(max(0.0, deadline - time.time()))
+                # a deadlock is "no thread finished an event for 6 s" (a loaded machine is slow, not hung), 120 s at most
+                start = last_change = time.time()
+                done = -1
+                while any(t.is_alive() for t in ths):
+                    for t in ths:
+                        t.join(0.05)
+                    now = time.time()
+                    n_done = sum(len(o) for o in outs)
+                    if n_done != done:
+                        done, last_change = n_done, now
+                    if now - last_change > 6 or now - start > 120:
+                        break
                 hung = [i for i, t in enumerate(ths) if t.is_alive()]
             finally:
                 sys.setswitchinterval(old)
